@@ -257,7 +257,7 @@ def correspond(ctx):
     old = fc.POINT_PRE
     fc.POINT_PRE = old.replace('Import ListNotations.', pre_extra + 'Import ListNotations.').replace('central_diff]', 'central_diff c_multi nth existsb zero_callable]')
     try:
-        bad = sorted(set(fc.run_point_goals('C07t', tgoals, chunk=24)))
+        bad = sorted(set(fc.run_point_goals('C07t', tgoals, chunk=24))); undecided = sorted(set(fc.SKIPPED))
     finally:
         fc.POINT_PRE = old
     for i in bad:
@@ -265,7 +265,8 @@ def correspond(ctx):
     dist = {'leaf_points': len(leaf_cases), 'trees': sum(1 for c in tcases if 'tree' in c), 'multi_range': sum(1 for c in tcases if 'multi' in c),
             'potable_route': sum(1 for c in tcases if c.get('route') == 'potable'),
             'with_numeric_fallback': sum(1 for c in tcases if 'plain' in core.canon(c) or 'd1' in core.canon(c)),
-            'depth3': sum(1 for c in tcases if 'tree' in c and _depth(c['tree']) >= 3)}
+            'depth3': sum(1 for c in tcases if 'tree' in c and _depth(c['tree']) >= 3),
+            'undecided_within_time_limit': len(undecided)}     # trees whose certification did not finish in 60 s per goal: neither agreement nor disagreement
     allc = leaf_cases + tcases
     return {'evaluations': len(allc), 'cases': allc, 'nontrivial': core.distinct_count([c for c in tcases if ('multi' in c or c['tree']['op'] != 'leaf')]) + core.distinct_count(leaf_cases),
             'rule': 'leaves: %d points per form for deriv and deriv2 (interval-certified against the code); expression trees to depth 3 over full/deriv-only/plain leaves '
